@@ -198,13 +198,13 @@ def readBody (ty : MsgType) (c : List UInt8) : Except WireError Body :=
   | .signaling => .signaling (readPortId c 0)
   | .management => .management (readPortId c 0) (byteAt c 10) (byteAt c 11) (normAction (byteAt c 12 % 16)))
 
-/-- `TlvSet::deserialize`: walks `(type, length, value)` records while more than 4
+/-- `TlvSet::deserialize`: walks `(type, length, value)` records while at least 4
 octets remain; odd length → `Invalid`; running past the end or 1–4 trailing
 octets → `BufferTooShort`. Fuel = buffer length (each step consumes ≥ 4 octets). -/
 def tlvCheck : Nat → List UInt8 → Except WireError Unit
   | 0, b => if b.isEmpty then .ok () else .error .short
   | fuel + 1, b =>
-    if b.length > 4 then
+    if b.length ≥ 4 then
       let len := beVal b 2 2
       if len % 2 ≠ 0 then .error .invalid
       else if b.length < 4 + len then .error .short
@@ -296,7 +296,7 @@ def Tlv.bytes (t : Tlv) : List UInt8 := beBytes t.ty 2 ++ beBytes t.value.length
 def tlvIter : Nat → List UInt8 → List Tlv
   | 0, _ => []
   | fuel + 1, b =>
-    if b.length > 4 then
+    if b.length ≥ 4 then
       let len := beVal b 2 2
       { ty := beVal b 0 2, value := (b.drop 4).take len } :: tlvIter fuel (b.drop (4 + len))
     else []
